@@ -149,7 +149,7 @@ func cmdCheck(args []string) int {
 		}
 	}
 	t0 := time.Now()
-	evPath := filepath.Join(verifDir, "evidence", prop+".json")
+	evPath := filepath.Join(outDir, "evidence", prop+".json")
 	os.MkdirAll(filepath.Dir(evPath), 0o755)
 	reg, err := loadRegistry()
 	if err != nil {
@@ -191,7 +191,7 @@ func cmdCheck(args []string) int {
 	nviol := 0
 	var knownSeen []string
 	var problems []string
-	replayRoot := filepath.Join(verifDir, "replays", prop)
+	replayRoot := filepath.Join(outDir, "replays", prop)
 	os.RemoveAll(replayRoot)
 	exit := 0
 	// all harnesses run concurrently; the global semaphore bounds the number of solver processes
